@@ -10,7 +10,7 @@ import (
 // bounds site with its requirements and the facts available in its block.
 func TestSiteDbg(t *testing.T) {
 	U = newUniverse()
-	P, err := loadProgram("/repo")
+	P, err := loadProgram(repoForDbg())
 	if err != nil {
 		t.Fatal(err)
 	}
@@ -39,4 +39,11 @@ func TestSiteDbg(t *testing.T) {
 			t.Logf("   global %s >= 0", bf.affString(f))
 		}
 	}
+}
+
+func repoForDbg() string {
+	if r := os.Getenv("BREPO"); r != "" {
+		return r
+	}
+	return "/repo"
 }
